@@ -1266,3 +1266,77 @@ Theorem tmp_name_noslash f r : noslash f = true -> all_digits r = true -> noslas
 Proof.
   intros Hf Hr. unfold tmp_name. rewrite !noslash_app, Hf, (digits_noslash _ Hr). reflexivity.
 Qed.
+
+(* --------------------------------------------- the order of the outputs (Go map) *)
+Theorem order_independent c init outs outs' :
+  Permutation outs outs' -> good c init outs -> good c init outs' ->
+  forall n, visible (exec init (plan c init outs)) n = visible (exec init (plan c init outs')) n.
+Proof.
+  intros HP G G' n.
+  destruct (final_state c init outs G) as (A & B & C & D & _).
+  destruct (final_state c init outs' G') as (A' & B' & C' & D' & _).
+  destruct (in_dec String.string_dec n (names outs)) as [Hn|Hn].
+  - apply in_map_iff in Hn as (o & <- & Ho).
+    rewrite (A o Ho), (A' o (Permutation_in _ HP Ho)). reflexivity.
+  - assert (Hn' : ~ In n (names outs')).
+    { intros H. apply Hn. unfold names in *. apply (Permutation_in n (Permutation_sym (Permutation_map o_name HP)) H). }
+    destruct (in_dec String.string_dec n (temps outs)) as [Ht|Ht].
+    + assert (Ht' : In n (temps outs')) by (unfold temps in *; apply (Permutation_in n (Permutation_map o_tmp HP) Ht)).
+      unfold visible. now rewrite (B n Ht), (B' n Ht').
+    + assert (Ht' : ~ In n (temps outs')).
+      { intros H. apply Ht. unfold temps in *. apply (Permutation_in n (Permutation_sym (Permutation_map o_tmp HP)) H). }
+      destruct (victim_spec c init n) eqn:V.
+      * pose proof (proj2 (victims_char c init outs G n Hn) V) as Hv.
+        pose proof (proj2 (victims_char c init outs' G' n Hn') V) as Hv'.
+        unfold visible. now rewrite (C n Hv), (C' n Hv').
+      * assert (Hv : ~ In n (victims c (exec init (write_ops (c_fd c) outs)))).
+        { intros H. apply (victims_char c init outs G n Hn) in H. congruence. }
+        assert (Hv' : ~ In n (victims c (exec init (write_ops (c_fd c) outs')))).
+        { intros H. apply (victims_char c init outs' G' n Hn') in H. congruence. }
+        destruct (D n Hn Ht Hv) as [_ E]. destruct (D' n Hn' Ht' Hv') as [_ E']. congruence.
+Qed.
+
+(* ----------------------------------------------------- after a crash: run again *)
+(* the process is gone, its descriptors with it; the directory stays as it was *)
+Definition reboot (s : fs) : fs := mkfs (dir s) (data s) (fun _ => None) (next s).
+
+Lemma step_dir_wf s o : dir_wf s -> dir_wf (step s o).
+Proof.
+  intros H. unfold step. destruct (negb (ok s o)); [exact H|].
+  destruct o as [h t|h b|h|a b|m|m|h m|w]; cbn; auto.
+  - intros n i L. cbn in *. destruct (String.eqb_spec n t) as [->|Hne].
+    + rewrite lookup_bind_eq in L. injection L as <-. lia.
+    + rewrite lookup_bind_neq in L by exact Hne. apply H in L. lia.
+  - destruct (fds s h); exact H.
+  - destruct (lookup a (dir s)) as [j|] eqn:E; [|exact H]. destruct (String.eqb a b); [exact H|].
+    intros n i L. cbn in *. destruct (String.eqb_spec n b) as [->|Hne].
+    + rewrite lookup_bind_eq in L. injection L as <-. exact (H a j E).
+    + rewrite lookup_bind_neq in L by exact Hne.
+      destruct (String.eqb_spec n a) as [->|Hne2]; [rewrite lookup_remove_eq in L; discriminate|].
+      rewrite lookup_remove_neq in L by exact Hne2. exact (H n i L).
+  - intros n i L. cbn in *. destruct (String.eqb_spec n m) as [->|Hne]; [rewrite lookup_remove_eq in L; discriminate|].
+    rewrite lookup_remove_neq in L by exact Hne. exact (H n i L).
+  - destruct (lookup m (dir s)) eqn:E; cbn; [exact H|].
+    intros n i L. cbn in *. destruct (String.eqb_spec n m) as [->|Hne].
+    + rewrite lookup_bind_eq in L. injection L as <-. lia.
+    + rewrite lookup_bind_neq in L by exact Hne. apply H in L. lia.
+Qed.
+
+Lemma exec_dir_wf ops : forall s, dir_wf s -> dir_wf (exec s ops).
+Proof. induction ops as [|o ops IH]; intros s H; cbn; [exact H|]. now apply IH, step_dir_wf. Qed.
+
+(* the state a killed run leaves behind meets the guards on directory states again,
+   so every theorem applies to the next run (whose temporaries O_EXCL makes fresh);
+   what the killed run left - a temporary, some outputs new, some victims gone - is
+   simply part of that state *)
+Theorem crash_state_is_a_state init p :
+  dir_wf init -> keys_nodup (dir init) ->
+  let s := reboot (exec init p) in
+  nofds s /\ dir_wf s /\ keys_nodup (dir s) /\
+  (forall n, visible s n = visible (exec init p) n).
+Proof.
+  intros H K. cbn zeta. split; [intros h; reflexivity|]. split; [|split].
+  - exact (exec_dir_wf p init H).
+  - exact (exec_keys p init K).
+  - reflexivity.
+Qed.
